@@ -161,10 +161,6 @@ func chunkOldPrimary(ctx context.Context, name string, fileSizeLimit int64) (uin
 			break
 		}
 		size := binary.LittleEndian.Uint32(sizeBuf)
-		if _, err = writer.Write(sizeBuf); err != nil {
-			outFile.Close()
-			return 0, err
-		}
 		pos += sizePrefixSize
 
 		del := false
@@ -183,6 +179,14 @@ func chunkOldPrimary(ctx context.Context, name string, fileSizeLimit int64) (uin
 				log.Errorw("Error reading primary", "err", err)
 				break
 			}
+		}
+		// Write the size prefix only now that the record is known to be
+		// complete. The prefix of a record whose data is cut short must not be
+		// copied: records appended after it would be misframed by any
+		// sequential scan of the file.
+		if _, err = writer.Write(sizeBuf); err != nil {
+			outFile.Close()
+			return 0, err
 		}
 		_, err := writer.Write(data)
 		if err != nil {
